@@ -170,7 +170,10 @@ impl Aml for ProcessorNode {
     fn to_aml_bytes(&self, sink: &mut dyn AmlSink) {
         let reserved: u16 = 0;
 
-        assert!(self.len() <= u8::MAX as usize, "processor node does not fit its length field");
+        assert!(
+            self.len() <= u8::MAX as usize,
+            "processor node does not fit its length field"
+        );
         sink.byte(NodeType::Processor as u8);
         sink.byte(self.len() as u8);
         sink.word(reserved);
